@@ -31,6 +31,7 @@ type c14Call struct {
 	Code     int    `json:"code"`               // custom limit-exceeded classifier's status code
 	CtxDone  int    `json:"ctx_done,omitempty"` // the caller's context: 0 live, 1 already cancelled, 2 deadline already expired (the limiter double ignores it; the classifier's choice must stand)
 	Same     bool   `json:"same,omitempty"`     // stream: this operation runs on the same wrapped stream (same handler invocation) as the previous one
+	Nested   int    `json:"nested,omitempty"`   // unary: the wrapped call itself makes a call through another unary client interceptor of the package, with the context it was handed: 0 no, 1 that inner limiter grants, 2 it refuses. Whatever happens in there, the outer token's outcome is the outer classifier's choice
 	ExcErr   int    `json:"exc_err,omitempty"`  // error the custom limit-exceeded classifier returns next to the code: 0 plain, 1 a gRPC status error carrying another code, 2 such a status error wrapped with %w
 }
 
@@ -78,6 +79,7 @@ func genC14(t *rapid.T) c14Case {
 			Resp:     rapid.IntRange(0, 3).Draw(t, "resp"),
 			Classify: rapid.IntRange(0, 2).Draw(t, "classify"),
 			Code:     rapid.IntRange(1, 16).Draw(t, "code"),
+			Nested:   rapid.SampledFrom([]int{0, 0, 0, 1, 2}).Draw(t, "nested"),
 			ExcErr:   rapid.SampledFrom([]int{0, 0, 1, 2}).Draw(t, "excErr"),
 			Same:     rapid.Bool().Draw(t, "same"),
 			CtxDone:  rapid.SampledFrom([]int{0, 0, 0, 1, 2}).Draw(t, "ctxDone"),
@@ -200,6 +202,19 @@ func runC14(_ *testing.T, c c14Case) (out kit.Outcome) {
 			return exceeded(ctx, method, req, l)
 		}
 	}
+	// a second, independent client interceptor used from inside wrapped calls (its events go to a log of their own)
+	nestedGrant := true
+	nestedL := &c14Limiter{name: "nested", log: &c14Log{}, grant: &nestedGrant}
+	nestedI := gcl.UnaryClientInterceptor(gcl.WithLimiter(nestedL), gcl.WithName("nested"))
+	nest := func(ctx context.Context) {
+		if cur.Nested == 0 {
+			return
+		}
+		nestedGrant = cur.Nested == 1
+		_ = nestedI(ctx, "/svc/N", "req", "reply", nil, func(ctx context.Context, method string, req, reply interface{}, cc *grpc.ClientConn, opts ...grpc.CallOption) error {
+			return nil
+		})
+	}
 	resps := []any{nil, &struct{ a int }{1}, "text", 7}
 	callErrs := []error{nil, errors.New("wrapped call failed"), io.EOF, context.Canceled, status.Error(codes.Unavailable, "down"), context.DeadlineExceeded, io.ErrUnexpectedEOF}
 
@@ -304,11 +319,13 @@ func runC14(_ *testing.T, c c14Case) (out kit.Outcome) {
 		case "server":
 			gotResp, gotErr = serverI(callCtx, "req", &grpc.UnaryServerInfo{FullMethod: "/svc/M"}, func(ctx context.Context, req interface{}) (interface{}, error) {
 				log.add("call")
+				nest(ctx)
 				return wantResp, wantErr
 			})
 		case "client":
 			gotErr = clientI(callCtx, "/svc/M", "req", "reply", nil, func(ctx context.Context, method string, req, reply interface{}, cc *grpc.ClientConn, opts ...grpc.CallOption) error {
 				log.add("call")
+				nest(ctx)
 				return wantErr
 			})
 		case "stream":
@@ -524,7 +541,7 @@ func TestC14_interceptors(t *testing.T) {
 	kit.RequireMode(t, "std")
 	kit.Check(t, kit.Prop[c14Case]{
 		ID: "C14", Quick: 4000, Thor: 400_000,
-		Rule: "option sets x call sequences (grant/refuse, result, classifier answer, status code, stream direction) on recording doubles; event grammar per call; non-trivial = a refusal, a grant and a non-success classification (streams: both directions)",
+		Rule: "option sets x call sequences (grant/refuse, result, classifier answer, status code, stream direction) on recording doubles, wrapped unary calls that themselves go through another client interceptor with the context they were handed; event grammar per call; non-trivial = a refusal, a grant and a non-success classification (streams: both directions)",
 		Gen:  genC14, Run: runC14,
 	})
 }
